@@ -449,7 +449,7 @@ def _fmt(o):
                                                                     [(a, t.decode()) for a, t, _ in o["ins"]])
 
 
-def simple_stmt(uid, outcome, effect, mode, prefix="    ", multiline=False, suffix=""):
+def simple_stmt(uid, outcome, effect, mode, prefix="    ", multiline=False, suffix="", pad=0):
     """A plain statement lacking a reference, as a Rendered item (used by the directive files)."""
     macro = MACROS[uid % 3]
     if multiline:
@@ -457,7 +457,7 @@ def simple_stmt(uid, outcome, effect, mode, prefix="    ", multiline=False, suff
         tail = 's%d multi {}",\n        x\n    );' % uid
     else:
         body = '%s!("' % macro
-        tail = 's%d x");' % uid
+        tail = 's%d x%s");' % (uid, (" " + "p" * pad) if pad else "")
     text = prefix + body + tail + suffix
     r = Rendered()
     r.case = {"s": {"head": "bare", "target": "none", "kvs": [], "msg": "plain", "dir": effect, "trailing": "none",
@@ -471,7 +471,7 @@ def simple_stmt(uid, outcome, effect, mode, prefix="    ", multiline=False, suff
 
 
 DIR_LINES = {
-    "blank": "", "cmt": "    // just a comment", "ign": "    // breadlog:ignore", "ignblock": "    /* breadlog:ignore */",
+    "blank": "", "blankrun": "\n".join(["    ", "", "\t"] * 40), "cmt": "    // just a comment", "ign": "    // breadlog:ignore", "ignblock": "    /* breadlog:ignore */",
     "ignupper": "    // BREADLOG:Ignore", "ignpadded": "  //    breadlog:ignore   ", "igntight": "//breadlog:ignore",
     "nokvp": "    // breadlog:no-kvp", "nokvpblock": "    /* breadlog:no-kvp */", "nokvpupper": "    // Breadlog:NO-KVP",
 }
@@ -507,7 +507,10 @@ def render_directive_case(pk, case, uid0):
                 prefix = "    /* breadlog:%s */ " % ("ignore", "no-kvp")[uid % 2]
             elif uid % 4 == 0:
                 prefix = "    /* \u00e9\u4e16 */ "
-            r = simple_stmt(uid, st["outcome"], eff, mode, prefix=prefix, multiline=(kind == "stmtml"))
+            # two statements on a line: the first one is long in some files, so that the second one starts hundreds of
+            # bytes after the line above
+            r = simple_stmt(uid, st["outcome"], eff, mode, prefix=prefix, multiline=(kind == "stmtml"),
+                            pad=((uid * 37) % 330 if (kind == "stmt2" and uid % 2 == 0) else 0))
             pk.add_inline(r)
             if kind == "stmt2":
                 uid += 1
